@@ -856,7 +856,46 @@ HAND_EXPRS = [
 ]
 
 
+ALIGNED_TEXTS = [("sqs:deletemessage*", "sqs:DeleteMessageBatch"), ("S3:GETOBJECT*", "s3:GetObjectAcl"), ("iam:pass*", "IAM:PassRole"),
+                 ("ec2:Describe?nstances", "ec2:describeinstances"), ("s3:Get*", "s3:getobject"), ("sns:publish", "SNS:Publish")]
+
+
+def aligned_template(rng):
+    """the SAME wildcard text in two roles: an IAM action pattern (matched ignoring case) and the value of a case-sensitive
+    StringLike / ArnLike condition, with a context value that differs from it in letter case only -- hidden state that remembers a
+    compiled matcher by its text alone makes the answers depend on which role was used first"""
+    pat, val = rng.choice(ALIGNED_TEXTS)
+    op = rng.choice(["StringLike", "StringNotLike", "ForAnyValue:StringLike", "ArnLike", "StringLikeIfExists"])
+    st = {"Effect": "Allow", rng.choice(["Action", "Action", "NotAction"]): rng.choice([pat, [pat], [pat, "sts:AssumeRole"]]), "Resource": "*",
+          "Condition": {op: {"aws:k": pat}}}
+    t = {"Resources": {"Pol": {"Type": "AWS::IAM::ManagedPolicy", "Properties": {"PolicyDocument": {"Version": "2012-10-17", "Statement": [st]}}}}}
+    return t, {"aws:k": val if not op.startswith("ForAnyValue") else [val]}
+
+
 def gen_history(rng, tier="quick"):
+    if rng.random() < 0.2:
+        h = gen_history_plain(rng, tier)
+        t, ctx = aligned_template(rng)
+        h["templates"].insert(0, t)
+        h["ctxs"].insert(0, ctx)
+        # indices of the other calls shift by one entry: harmless (they stay valid: indices are taken modulo the pool size)
+        nid = max([c["id"] for c in h["calls"]] + [0])
+        head = []
+        for op in rng.sample(["q", "c", "q", "c", "e"], rng.randint(2, 5)):
+            nid += 1
+            if op == "q":
+                head.append({"id": nid, "op": "query", "m": ["M", 0], "q": rng.choice(["allowed_actions", "iam_actions"]), "arg": 0})
+            elif op == "c":
+                head.append({"id": nid, "op": "cond", "m": ["M", 0], "k": 0, "ctx": 0, "via": rng.choice(["call", "eval"])})
+            else:
+                head.append({"id": nid, "op": "expand", "m": ["M", 0]})
+        at = rng.randrange(len(h["calls"]) + 1) if rng.random() < 0.5 else 0
+        h["calls"][at:at] = head
+        return h
+    return gen_history_plain(rng, tier)
+
+
+def gen_history_plain(rng, tier="quick"):
     templates, eps, ctxs, wls, exprs = [], [], [], [], []
     for _ in range(rng.randint(1, 4)):
         k = rng.random()
